@@ -9,6 +9,10 @@ WALLETS = ["Wallet 1", "Wallet 2", "Vault"]
 ANAMES = ["Acc1", "Acc2", "Acc10", "Validator", "val 7", "acc1", "Deposit", "X"]
 
 
+ENDPOINTS = ["signer-test01:8881", "signer-test02:8882", "signer-test01:8881", "[2001:db8::2]:8882", "bare-host", "host:notaport",
+             "host:99999999999", "a:b:c", ":", "host:"]
+
+
 def hs(s):
     return hx(s) if s else "."
 
@@ -19,13 +23,25 @@ def gen_scenario(r, keys):
     accts = []
     ki = 0
     lines = ["nocache"]
+    # some scenarios are listed through the real gRPC API (TLS, interceptors, the ListAccounts handler), and some wallets
+    # are DISTRIBUTED wallets whose accounts carry participant endpoints of every spelling an imported account can have
+    if r.chance(0.4):
+        lines.append("viagrpc")
+    dist_wallets = set()
     for w in wallets:
         n = r.weighted([(0, 1), (1, 2), (3, 4), (6, 3), (8, 1)])
         names = r.shuffle(ANAMES)[:n]
         if not names:
             lines.append("wallet %s" % hx(w))
+        isdist = bool(names) and r.chance(0.3)
+        if isdist:
+            dist_wallets.add(w)
         for nm in names:
-            accts.append(hist.Acct(w, nm, keys[ki]))
+            dist = None
+            if isdist:
+                eps = [r.choice(ENDPOINTS) for _ in range(1 + r.below(3))]
+                dist = ";".join("%d=%s" % (i + 1, e) for i, e in enumerate(eps))
+            accts.append(hist.Acct(w, nm, keys[ki], dist=dist))
             ki += 1
     # permissions: per-account tables
     pl = []
@@ -66,8 +82,8 @@ def gen_scenario(r, keys):
         if r.chance(0.2):
             # other request types in between must not disturb what later listings show
             ops.append("%s %s %s" % (r.choice(["lockwallet", "lockwallet", "unlockwallet"]), hx(r.choice(["client1", "client2"])), hx(r.choice(wallets + ["Nope"]))))
-        if r.chance(0.25):
-            w = r.choice(wallets)
+        if r.chance(0.25) and len(dist_wallets) < len(wallets):
+            w = r.choice([x for x in wallets if x not in dist_wallets])     # (a distributed wallet creates accounts by key generation only)
             nm = r.choice(["New1", "Acc77", "Acc1", "Validator2", "acc9"])
             ops.append("create %s %s" % (hx(r.choice(["client1", "client2"])), hx(w + "/" + nm)))
     return cfg, ops, accts
